@@ -37,6 +37,9 @@ type Case struct {
 	// Versions, when present, are the protocol versions in force (first genesis must be 0); every operation is
 	// applied under the version its protocol-version stamp (CaseOp.PV) selects. Empty = one version.
 	Versions []VersionSpec `json:"versions,omitempty"`
+	// AsOf, if non-zero, asks (in checks that support it) additionally for the state as of that time: the resolution
+	// with that version time must be the state machine's state over the operations with time <= AsOf
+	AsOf uint64 `json:"asOf,omitempty"`
 	// ExpiredClock: the node's parsers are configured with a server-clock validator for which every signed anchoring
 	// window has already expired. Intake would refuse such requests; the resolution of anchored operations must not
 	// depend on the node's clock at all.
@@ -176,6 +179,20 @@ func (c *Case) Client() *wire.Client {
 // Model runs the reference model on the case.
 func (c *Case) Model() *refmodel.State {
 	return refmodel.Resolve(c.Descs(), refmodel.Params{MaxTimeDelta: c.Protocol().MaxOperationTimeDelta})
+}
+
+// ModelAsOf is the reference state over the operations with time <= t (nil if there is none).
+func (c *Case) ModelAsOf(t uint64) *refmodel.State {
+	var ds []*refmodel.Op
+	for _, d := range c.Descs() {
+		if d.Time <= t {
+			ds = append(ds, d)
+		}
+	}
+	if len(ds) == 0 {
+		return nil
+	}
+	return refmodel.Resolve(ds, refmodel.Params{MaxTimeDelta: c.Protocol().MaxOperationTimeDelta})
 }
 
 // Summary is a compact description for evidence samples.
